@@ -1,11 +1,20 @@
-(* C05 - Update/react cycle: fixed callback order, active state only, requests last. Theorems only. delivs a ds l = l is the concatenation of one delivery (deliv: every recipient exactly once, in C15 order, views showing a active) per (who, method) of ds, oldest first; cbs l = the (who, recipient, method) of the callbacks in l, oldest first; expected_cbs = the same computed from the configuration. The plan's structural invariant is a parameter PI with plan_inv_ok P cfg PI in the statements taken from Proofs/CycleProofs.v / Proofs/PlanStep.v; the last theorem of this file shows the concrete invariant PIc (the plan refines a bounded task list whose tasks name states, Proofs/PlanProofs.v, Proofs/MachinePlan.v) satisfies it. *)
+(* C05 - Update/react cycle: fixed callback order, active state only, requests last. Theorems only. delivs a ds l = l
+   is the concatenation of one delivery (deliv: every recipient exactly once, in C15 order, views showing a active) per
+   (who, method) of ds, oldest first; cbs l = the (who, recipient, method) of the callbacks in l, oldest first;
+   expected_cbs = the same computed from the configuration. The plan's structural invariant is a parameter PI with
+   plan_inv_ok P cfg PI in the statements taken from Proofs/CycleProofs.v / Proofs/PlanStep.v; the last theorem of this
+   file shows the concrete invariant PIc (the plan refines a bounded task list whose tasks name states,
+   Proofs/PlanProofs.v, Proofs/MachinePlan.v) satisfies it. *)
 From Coq Require Import List Arith Bool NArith.
 From FFSM2 Require Import Model.TaskList Model.BitArray Model.BitStream Model.Plan Model.Ancestors Model.Machine
   Proofs.BitArrayProofs Proofs.MachineFrame Proofs.MachinePlan Proofs.MachineLife Proofs.GuardProofs Proofs.CycleProofs Proofs.PlanStep
-  Proofs.SerialProofs Proofs.LogProofs Proofs.MachineTop.
+  Proofs.SerialProofs Proofs.LogProofs Proofs.MachineTop Model.Multi Generated.InitFacts Proofs.ConstructProofs Proofs.LifeMonitor Proofs.ActivationRounds Proofs.IndexSafety Proofs.FeatureProofs.
 Import ListNotations.
 
-(* update(): the oldest events of the call are exactly preUpdate(root), preUpdate(a), update(root), update(a), postUpdate(a), postUpdate(root) - each recipient once -, only the root and the state active at the start are addressed, and every guard/enter/exit/reenter of the call is newer than all of them, whatever the callbacks request or report on the way *)
+(* update(): the oldest events of the call are exactly preUpdate(root), preUpdate(a), update(root), update(a),
+   postUpdate(a), postUpdate(root) - each recipient once -, only the root and the state active at the start are
+   addressed, and every guard/enter/exit/reenter of the call is newer than all of them, whatever the callbacks request
+   or report on the way *)
 Theorem C05_update_order :
   forall (P : Type) (cfg : config) (orc : oracle P) (PI : plan_data P -> Prop),
          plan_inv_ok P cfg PI ->
@@ -51,7 +60,8 @@ Theorem C05_react_order :
 Proof. exact (react_cycle_order). Qed.
 Print Assumptions C05_react_order.
 
-(* the whole cycle: six phase deliveries, then the plan step (only planSucceeded/planFailed on the root, nothing when plans are off), then request processing *)
+(* the whole cycle: six phase deliveries, then the plan step (only planSucceeded/planFailed on the root, nothing when
+   plans are off), then request processing *)
 Theorem C05_cycle_shape :
   forall (P : Type) (cfg : config) (orc : oracle P) (PI : plan_data P -> Prop),
          plan_inv_ok P cfg PI ->
